@@ -7,7 +7,15 @@ def main():
     sizes = lambda b: [b["L"]] * b["NC"]
     desc = lambda o: {k: o["obs"].get(k) for k in ("result", "err", "summary", "count")}
     cfgs = ["MC_BigWig_t1.cfg", "MC_BigWig_t2.cfg"] if run.thorough else ["MC_BigWig_q1.cfg", "MC_BigWig_q2.cfg"]
-    obs = run_batches(run, "C06", "MC_BigWig", cfgs, "Obs_BigWig", lambda o: len(o["items"]) >= 2, desc, lambda beh, k0: make_cases(beh, "bw", sizes, run, k0=k0))
+    def build_w(beh, k0):
+        cases = make_cases(beh, "bw", sizes, run, k0=k0)
+        for k, c in enumerate(cases):
+            if k % 3 == 1:
+                # every third file holds only values <= 0 (tokens 1..3 -> -2..0): extrema of an all-negative / all-zero track
+                c["items"] = [[it[0], it[1], it[2], it[3] - 3] for it in c["items"]]
+                c["mz"] = []
+        return cases
+    obs = run_batches(run, "C06", "MC_BigWig", cfgs, "Obs_BigWig", lambda o: len(o["items"]) >= 2, desc, build_w)
     wobs = obs
     run.sample({"kind": "bw", "items": obs[len(obs) // 3]["items"], "summary": obs[len(obs) // 3]["obs"].get("summary")})
     cfgs = ["MC_BigBed_t1.cfg", "MC_BigBed_t2.cfg"] if run.thorough else ["MC_BigBed_q1.cfg", "MC_BigBed_q2.cfg"]
